@@ -311,6 +311,32 @@ def bounded_index(n, fam, seen=None):
         return "literal %d" % v
     if F.is_call(n, *LEN_CALLS):
         return "len() of an in-memory sequence"
+    # an if / match / block value: every branch that yields a value yields a bounded index (diverging branches yield nothing)
+    k = n.get("k")
+    if k in ("If", "Match", "Block") and len(seen) < 12:
+        branches = []
+        if k == "If":
+            if n.get("else") is None:
+                return None
+            branches = [n["then"], n["else"]]
+        elif k == "Match":
+            if FL.try_operand(n) is not None:
+                return None
+            branches = [a_["body"] for a_ in n["arms"]]
+        else:
+            if n.get("tail") is None:
+                return None
+            branches = [n["tail"]]
+        rs = []
+        for br in branches:
+            b_ = F.strip(br)
+            if b_.get("ty") == "!" or b_.get("k") in ("Continue", "Break", "Return"):
+                continue
+            r_ = bounded_index(br, fam, seen)
+            if r_ is None:
+                return None
+            rs.append(r_)
+        return "; ".join(sorted(set(rs))) if rs else None
     if n.get("k") in ("Var", "Upvar"):
         vid = n["id"]
         if vid in seen:
